@@ -141,6 +141,14 @@ def merge (ops : ValOps V W) (s : TMap κ V) (o : TMap κ W) : TMap κ V × Bool
 def mergeAll (ops : ValOps V W) (s : TMap κ V) (rs : List (TMap κ W)) : TMap κ V :=
   rs.foldl (fun a r => (merge ops a r).1) s
 
+/-- the value lattice the correspondence harness instantiates the maps with:
+`SetUnion<HashSet<u64>>` receiving `SetUnion<HashSet|Vec<u64>>` (set_union.rs `merge`:
+`extend` then compare lengths; `is_bot` = empty; `lattice_from` = collect) -/
+def setOps : ValOps (List Nat) (List Nat) where
+  merge v w := (setExtend v w, decide (v.length < (setExtend v w).length))
+  isBot w := w.isEmpty
+  from_ w := setExtend [] w
+
 end TMap
 
 end HvLatSpec
